@@ -55,8 +55,8 @@ CHECKS = {
     'C14': ('differential symbolic execution: tools.f and laue.f run in one program on the same symbolic inputs, joint path exploration, result expressions compared by z3/cvc5 (QF_NRA / QF_LIA); genhkl_* and reduce_cell compared on a concrete sample (enumeration)',
             'Bounded model checking of 41 function pairs over the input spaces of C01-C03/C09/C13 (exact reals, all paths up to the stated budgets); the 2*pi convention is applied to B-valued outputs and B/g-valued inputs.', 'Known finding: ubi_to_u_and_eps (strain) differs between the modules (see C13).', '6/C14'),
     'C12': ('symbolic execution of permutations/rotations (exact tables in Q(sqrt 3) through the real form_b_mat) and of Umis on two unit-quaternion rotations; group axioms, pairing identity for a symbolic conforming cell and Umis invariance identities decided by normal form + z3/cvc5 (QF_NRA)',
-            'Bounded model checking over exact reals: all 7 crystal systems, all pairs of operators, all pairs of proper rotations, all conforming cells. The obligation that the arccos argument lies in [-1,1] is an 8-variable inequality that the solvers leave inconclusive for most operators (listed in the evidence).',
-            'ndarray.clip is modelled as the identity under that obligation.', '6/C12'),
+            'Bounded model checking over exact reals: all 7 crystal systems, all pairs of operators, all pairs of proper rotations, all conforming cells. The obligation that the arccos argument lies in [-1,1] is decided through sum-of-squares certificates (identities on the real expressions plus two abstract inequalities).',
+            'ndarray.clip is modelled as the identity, justified by that obligation.', '6/C12'),
     'C17': ('execution of the real CIFread/remove_esd/PDBread on files whose numeric fields are opaque tokens mapped to solver reals by float()/int() contract stubs; all string handling of the code runs for real; field-by-field equalities checked with z3 (linear real arithmetic)',
             'Bounded checking: 90 CIF configurations and 3 PDB files with 2 atoms each, every numeric value symbolic; verdicts are equalities between solver terms. String-theory solving is not used: the decisive symbolic part is the numeric content, the structural part is enumerated.',
             'PyCifRW and Python\'s float grammar are outside the claim.', '6/C17'),
